@@ -39,6 +39,7 @@ def run(ctx):
     ctx.rule(triangle)
     ctx.rule(centres)
     ctx.rule(purity)
+    ctx.rule(fc.banks_stateless, "R-C05-pure")
 
 
 def range_rule(ctx, R="R-C05-range"):
@@ -82,19 +83,15 @@ def spacing(ctx, R="R-C05-spacing"):
     prog = ctx.prog
     for name in fc.BANKS:
         c, f, ev = fc.ctor_eval(prog, name)
-        sl, sh, sd = ev.env.get("scale_low"), ev.env.get("scale_high"), ev.env.get("scale_delta")
-        ctx.need(sl is not None and sh is not None and sd is not None, R, "scale_low / scale_high / scale_delta not found in %s" % name)
-        sf, heff = fc.effective_high(ev)
-        ok = sl.op == "call" and sl.args[0] == ".hertz_to_scale" and sl.args[1] == sf and sl.args[2] == S.sym("low_hz")
-        ctx.check(ok, R, f, f.node, "%s: the scale starts at hertz_to_scale(low_hz) of the same scaling function" % name, "scale_low is %s" % S.show(sl)[:100])
+        v = fc.layout_value(prog, name, f, ev)
+        ctx.need(cc.is_call(v, "tuple") and cc.is_call(v.args[1], "comp"), R, "the layout of %s is not a tuple(generator): %s" % (name, S.show(v)[:80]))
+        sf, heff = fc.effective_high(ev, v)
+        sl = S.call(".hertz_to_scale", sf, S.sym("low_hz"))
+        sh = S.call(".hertz_to_scale", sf, heff)
         if name == "Fbank":
             ctx.check(S.show(sf) == "scales.MelScaling()", R, f, f.node, "Fbank lays its vertices out on the mel scale", "Fbank's scale is %s" % S.show(sf))
         F = S.sym("num_filts")
-        r = S.compare(sd, S.truediv(S.sub(sh, sl), S.add(F, S.ONE)), domain={})
-        ctx.check(r["verdict"] == "equal", R, f, f.node, "%s: the step is (s_hi - s_lo)/(num_filts + 1)" % name, "scale_delta is %s" % S.show(sd)[:120])
-        key = "self._vertices" if name in fc.VERTEX_BANKS else "edges"
-        v = ev.env.get(key)
-        ctx.need(v is not None and cc.is_call(v, "tuple") and cc.is_call(v.args[1], "comp"), R, "%s of %s is not a tuple(generator)" % (key, name))
+        sd = S.truediv(S.sub(sh, sl), S.add(F, S.ONE))
         comp = v.args[1]
         elt, it = comp.args[1], comp.args[2]
         idx = [x for x in S.walk(elt) if x.op == "sym" and x.args[0].startswith("@")]
@@ -102,9 +99,11 @@ def spacing(ctx, R="R-C05-spacing"):
         k = idx[0]
         off = S.ZERO if name in fc.VERTEX_BANKS else S.lift(Fraction(1, 2))
         want = S.call(".scale_to_hertz", sf, S.add(sl, S.mul(sd, S.add(k, off))))
-        r = S.compare(elt, want, domain={})
-        what = "vertex k = scale_to_hertz(s_lo + k * step)" if name in fc.VERTEX_BANKS else "edge k = scale_to_hertz(s_lo + (k + 1/2) * step)"
-        ctx.check(r["verdict"] == "equal", R, f, f.node, "%s: %s" % (name, what), "%s: element is %s" % (name, S.show(elt)[:160]))
+        ok = elt.op == "call" and elt.args[0] == ".scale_to_hertz" and len(elt.args) == 3 and elt.args[1] == sf and \
+            S.compare(elt.args[2], want.args[2], domain={})["verdict"] == "equal"
+        what = ("vertex k = scale_to_hertz(s_lo + k * (s_hi - s_lo)/(num_filts + 1))" if name in fc.VERTEX_BANKS else
+                "edge k = scale_to_hertz(s_lo + (k + 1/2) * (s_hi - s_lo)/(num_filts + 1))") + ", s_lo = hertz_to_scale(low_hz), one scaling function throughout"
+        ctx.check(ok, R, f, f.node, "%s: %s" % (name, what), "%s: layout element is %s" % (name, S.show(elt)[:200]))
         cnt = S.add(F, S.lift(2)) if name in fc.VERTEX_BANKS else S.add(F, S.ONE)
         ok = cc.is_call(it, "range") and ((len(it.args) == 3 and it.args[1] == S.ZERO and S.compare(it.args[2], cnt, domain={})["verdict"] == "equal") or
                                           (len(it.args) == 2 and S.compare(it.args[1], cnt, domain={})["verdict"] == "equal"))
